@@ -415,6 +415,78 @@ def reference_run(code, extra=None):
   return out
 
 
+
+# ---------------------------------------------------------------------------------------------
+# The tail of evaluate on the small statement language of lean/PgModel/CodeTail.lean
+# (op 'mini'): the real evaluate and plain exec on the rendered text, the Lean model on the AST.
+MINI_NAMES = ['a', 'b', 'c', 'g0', 'g0', '__result__']
+
+
+def mini_name(rng, defined):
+  # mostly names that are bound at this point (a NameError ends the program early)
+  if defined and rng.chance(0.9):
+    return rng.choice(sorted(defined))
+  return rng.choice(MINI_NAMES)
+
+
+def mini_ex(rng, defined, depth=0):
+  r = rng.below(20)
+  if depth >= 2 or r < 6:
+    return ['lit', rng.below(10)]
+  if r < 12:
+    return ['var', mini_name(rng, defined)]
+  if r < 16:
+    return ['add', mini_ex(rng, defined, depth + 1), mini_ex(rng, defined, depth + 1)]
+  if r < 19:
+    return ['print', mini_ex(rng, defined, depth + 1)]
+  return ['none']
+
+
+def mini_stmt(rng, defined):
+  r = rng.below(10)
+  if r < 4:
+    ts = [rng.choice(MINI_NAMES) for _ in range(1 if rng.chance(0.7) else rng.randint(2, 3))]
+    st = ['assign', ts, mini_ex(rng, defined)]
+    defined.update(ts)
+    return st
+  if r < 7:
+    return ['expr', mini_ex(rng, defined)]
+  if r < 9:
+    return ['aug', mini_name(rng, defined), mini_ex(rng, defined)]
+  return ['pass']
+
+
+def mini_render_ex(e):
+  k = e[0]
+  if k == 'lit':
+    return str(e[1])
+  if k == 'none':
+    return 'None'
+  if k == 'var':
+    return e[1]
+  if k == 'add':
+    return '(%s + %s)' % (mini_render_ex(e[1]), mini_render_ex(e[2]))
+  return 'print(%s)' % mini_render_ex(e[1])
+
+
+def mini_render(prog):
+  lines = []
+  for st in prog:
+    if st[0] == 'assign':
+      lines.append(' = '.join(st[1]) + ' = ' + mini_render_ex(st[2]))
+    elif st[0] == 'expr':
+      lines.append(mini_render_ex(st[1]))
+    elif st[0] == 'aug':
+      lines.append('%s += %s' % (st[1], mini_render_ex(st[2])))
+    else:
+      lines.append('pass')
+  return '\n'.join(lines)
+
+
+def mini_val(v):
+  return v if (v is None or (isinstance(v, int) and not isinstance(v, bool))) else repr(v)
+
+
 class C19(Prop):
   id = 'C19'
   props_modules = ['PgProps.C19']
@@ -510,8 +582,18 @@ class C19(Prop):
         yield {'op': 'run', 'code': code, 'explicit': [f for f in FLAGS if f != drop], 'scopes': [], 'tree': tree}
       yield {'op': 'run', 'code': code, 'explicit': [], 'scopes': [], 'tree': tree}
       yield {'op': 'run', 'code': code, 'explicit': list(FLAGS), 'scopes': [[]], 'tree': tree}
+    # the tail of evaluate against the Lean model of it (and against plain exec)
+    for i in range(400 if tier == 'quick' else 20000):
+      ctx = [['g0', rng.below(10)]]
+      if rng.chance(0.3):
+        ctx.append(['a', rng.choice([None, rng.below(10)])])
+      defined = {k for k, _ in ctx}
+      prog = [mini_stmt(rng, defined) for _ in range(rng.randint(1, 6))]
+      yield {'op': 'mini', 'prog': prog, 'ctx': ctx, 'code': mini_render(prog)}
 
   def model_request(self, case):
+    if case.get('op') == 'mini':
+      return {'op': 'tail', 'prog': case['prog'], 'ctx': case['ctx']}
     case = self.with_tree(case)
     if case.get('tree') is None:
       return None
@@ -528,7 +610,46 @@ class C19(Prop):
       case['tree'] = None
     return case
 
+  def impl_mini(self, case):
+    from pyglove.core import coding
+    code = mini_render(case['prog'])
+    ctx = {k: v for k, v in case['ctx']}
+
+    def run(f):
+      g = {'__builtins__': builtins.__dict__}
+      g.update(ctx)
+      try:
+        return f(g)
+      except coding.CodeError as e:
+        return {'outcome': 'error', 'error': type(e.cause).__name__}
+      except Exception as e:   # pylint: disable=broad-except
+        return {'outcome': 'error', 'error': type(e).__name__, 'unwrapped': True}
+
+    def real(g):
+      out = coding.evaluate(code, global_vars=g, outputs_intermediate=True)
+      stdout = out.pop('__stdout__')
+      result = out.pop('__result__', None)
+      return {'outcome': 'ok', 'result': mini_val(result),
+              'vars': [[k, mini_val(v)] for k, v in out.items()],
+              'stdout': stdout.split('\n')[:-1]}
+
+    def plain(g):
+      stdout = io.StringIO()
+      with contextlib.redirect_stdout(stdout):
+        exec(compile(code, '', 'exec'), g)   # pylint: disable=exec-used
+      return {'outcome': 'ok',
+              'vars': [[k, mini_val(v)] for k, v in g.items()
+                       if k not in ('__builtins__', '__result__') and (k not in ctx or v is not ctx[k])],
+              'stdout': stdout.getvalue().split('\n')[:-1]}
+
+    obs, ref = run(real), run(plain)
+    if obs.get('outcome') == 'ok':
+      obs['vars'] = [kv for kv in obs['vars'] if kv[0] != '__result__']
+    return {'obs': obs, 'ref': ref}
+
   def impl(self, case):
+    if case.get('op') == 'mini':
+      return self.impl_mini(case)
     case = self.with_tree(case)
     from pyglove.core import coding
     P = coding.CodePermission
@@ -622,6 +743,16 @@ class C19(Prop):
             'obs': obs, 'ref': ref}
 
   def compare(self, case, impl_out, model_out):
+    if case.get('op') == 'mini':
+      a = dict(impl_out['obs'])
+      b = dict(model_out)
+      if b.get('outcome') == 'ok':
+        b['stdout'] = [str(v) for v in b['stdout']]
+      if case['prog'] and case['prog'][-1][0] in ('aug', 'pass') and a.get('outcome') == 'ok':
+        pass      # the fall-back result (last value of the globals dict) is compared too
+      if a != b:
+        return 'impl=%s model=%s' % (a, b)
+      return None
     a = impl_out['model']
     b = {k: model_out.get(k) for k in ('result', 'slot_inside', 'slot_after')}
     if case.get('tree') is None:
@@ -642,7 +773,29 @@ class C19(Prop):
       return set(e)
     return set(e) & set(scopes[0])
 
+  def oracle_mini(self, case, out):
+    obs, ref = out['obs'], out['ref']
+    if obs.get('unwrapped'):
+      return {'signature': 'error-not-wrapped', 'what': 'evaluate raised a bare %s' % obs['error']}
+    if ref['outcome'] == 'error':
+      if obs['outcome'] != 'error' or obs['error'] != ref['error']:
+        return {'signature': 'error-not-wrapped', 'what': 'plain exec raises %s; evaluate: %s' % (ref['error'], obs)}
+      return None
+    if obs['outcome'] != 'ok':
+      return {'signature': 'spurious-error', 'what': 'plain exec succeeds; evaluate: %s' % obs}
+    diffs = []
+    if obs['stdout'] != ref['stdout']:
+      diffs.append('stdout %r vs %r' % (obs['stdout'], ref['stdout']))
+    if obs['vars'] != ref['vars']:
+      diffs.append('intermediate variables %r vs %r' % (obs['vars'], ref['vars']))
+    if diffs:
+      return {'signature': 'differs-from-plain-exec:last=' + case['prog'][-1][0].capitalize(),
+              'what': '; '.join(diffs)}
+    return None
+
   def oracle(self, case, out):
+    if case.get('op') == 'mini':
+      return self.oracle_mini(case, out)
     case = self.with_tree(case)
     obs, ref = out['obs'], out['ref']
     granted = self.granted(case)
@@ -705,9 +858,14 @@ class C19(Prop):
     return None
 
   def nontrivial(self, case, out):
+    if case.get('op') == 'mini':
+      return len(case['prog']) >= 2
     return case.get('tree') is not None and any(k in REQUIRED for k, _ in kinds_of(case['tree']))
 
   def describe(self, case, out):
+    if case.get('op') == 'mini':
+      return ['mini', 'mini-last:' + case['prog'][-1][0], 'mini-outcome:' + out['obs'].get('outcome', '?') +
+              (':' + out['obs']['error'] if out['obs'].get('outcome') == 'error' else '')]
     h = []
     obs = out['obs']
     h.append('outcome:' + out['model']['result']['outcome'])
@@ -732,6 +890,14 @@ class C19(Prop):
     return h
 
   def shrink_candidates(self, case):
+    if case.get('op') == 'mini':
+      for i in range(len(case['prog'])):
+        if len(case['prog']) > 1:
+          c = dict(case)
+          c['prog'] = case['prog'][:i] + case['prog'][i + 1:]
+          c['code'] = mini_render(c['prog'])
+          yield c
+      return
     lines = case['code'].split('\n')
     for i in range(len(lines)):
       if lines[i].strip() == 'break' or '+ 1' in lines[i]:
